@@ -16,6 +16,7 @@ import backend as backend_mod   # noqa
 import core                     # noqa
 import adapters                 # noqa
 import inputs                   # noqa
+import affine                   # noqa
 
 
 def leaves(v):
@@ -73,7 +74,7 @@ class Ctx(object):
         return self.backend in adapters.ROUTINES[rid][2]
 
     # -- correspondence: model routine vs implementation
-    def corr(self, cases, nontrivial=None, tol=core.TOL, functional=True):
+    def corr(self, cases, nontrivial=None, tol=core.TOL, functional=True, affine_copies=True):
         """functional=True (default: every modelled routine now has its refinement /
         characterisation theorems in coq/Props): an input on which model and
         implementation differ is a failing input - the implementation no longer
@@ -83,6 +84,12 @@ class Ctx(object):
         cases = [c for c in cases if self.supports(c[0])]
         if not cases:
             return
+        if affine_copies:
+            # shifted / scaled copies of a deterministic sample (affine.py): recordings that do not
+            # start at 0, negative edges, large time stamps - for every modelled routine
+            n0 = len(cases)
+            cases = affine.extend(cases)
+            self.bump("affine_copies", len(cases) - n0)
         mcases = [(rid, ([self.cy] if adapters.ROUTINES[rid][1] else []) + list(args)) for rid, args in cases]
         mout = core.run_model(mcases)
         for (rid, args), mv in zip(cases, mout):
